@@ -278,10 +278,10 @@ static int run_sequence(const std::vector<int> &h, const std::string &replay, bo
     }
   }
   sq::outcome(digest);
-  if (h.size() >= 2 && vr::S().samples.size() < 6 && (h[0] * 5 + h[1]) % 13 == 4)
-    sq::sample(replay + " = " + seq_text(h) + ": " + std::to_string(L) + " bytes, " + std::to_string(L) + " truncation points");
   if (bad)
     return sq::H_VIOL;
+  if (h.size() >= 2 && vr::S().samples.size() < 6 && (h[0] * 5 + h[1]) % 13 == 4)
+    sq::sample(replay + " = " + seq_text(h) + ": " + std::to_string(L) + " bytes, round trip ok, " + std::to_string(L) + " truncation points");
   // ---- (i') the same sequence through the other WriteStream, a FixedBufferWriter of exactly the
   // predicted size (compute the size, allocate, write): nothing may be rejected, and what
   // getWrittenView() shows reads back equal.  A failure here is reported but does not end the sequence.
